@@ -401,7 +401,14 @@ class FaultPoint(EngineBase):
         if vanished_target and plan.get("post", True):
             exe_cached = warm_exe_ok or (
                 name == "exe" and out[0] == "value") or p._exe is not None
-            for i, g in enumerate(GETTERS + ["is_running", "wait"]):
+            # the tree walkers answer from other processes' records: they
+            # must refuse as well, whether asked first (nothing has noticed
+            # the death yet) or last
+            walkers = ["children", "children_r", "parent", "parents"]
+            first = faults[0]["k"] % 2 == 0
+            order = (walkers if first else []) + GETTERS + [
+                "is_running", "wait"] + ([] if first else walkers)
+            for i, g in enumerate(order):
                 if g in GETTERS and not hasattr(
                         psutil.Process, g.replace("_uss", "").replace(
                             "_ng", "").replace("_all", "")):
